@@ -206,6 +206,10 @@ def check_tree_index(partition, where=""):
             if n.get_depth() != h:
                 raise Violation("C03.depthlabel", "cell labelled depth %r sits at tree depth %d %s" % (n.get_depth(), h, where))
             lab = n.get_index()
+            try:
+                lab = int(lab)  # exact integer arithmetic below, whatever integer type the library stores
+            except Exception:
+                raise Violation("C03.labels", "cell at depth %d carries a non-integer index %r %s" % (h, lab, where))
             if lab in labels:
                 raise Violation("C03.labels", "label (%d,%r) used twice %s" % (h, lab, where))
             labels.add(lab)
@@ -218,7 +222,7 @@ def check_tree_index(partition, where=""):
                         raise Violation("C03.parent", "cell (%d,%r) lists child (%r,%r) whose parent is %r: created by splitting another cell %s"
                                         % (h, lab, c.get_depth(), c.get_index(), None if p is None else cell_id(p), where))
                     want = K * (lab - 1) + 1 + j
-                    if c.get_index() != want:
+                    if int(c.get_index()) != want:
                         raise Violation("C03.childindex", "child #%d of cell (%d,%r) carries index %r, expected %d (K=%d) %s"
                                         % (j, h, lab, c.get_index(), want, K, where))
             if h > 0:
